@@ -4,7 +4,7 @@ from framework import VERIF, CACHE, Inconclusive
 
 KDIR = os.path.join(VERIF, 'kani')
 
-def run_kani(prefix, features=None, jobs=8, timeout=1500, mem_gb=24):
+def run_kani(prefix, features=None, jobs=8, timeout=1500, mem_gb=24, harness_timeout=420):
     """run every harness whose name starts with `prefix`; returns dict(harness -> dict(status, checks, failed_checks, time))"""
     tdir = os.path.join(CACHE, 'kani-target' + ('-' + features if features else ''))
     os.makedirs(tdir, exist_ok=True)
@@ -14,7 +14,7 @@ def run_kani(prefix, features=None, jobs=8, timeout=1500, mem_gb=24):
         shutil.copy(os.path.join(os.environ.get('VERIF_REPO', '/repo'), 'Cargo.lock'), os.path.join(KDIR, 'Cargo.lock'))
         env = dict(os.environ, CARGO_NET_OFFLINE='true'); env.pop('RUSTFLAGS', None)
         names = list_harnesses(prefix)
-        cmd = ['cargo', 'kani', '--target-dir', tdir, '-j', str(jobs), '--output-format', 'terse']
+        cmd = ['cargo', 'kani', '--target-dir', tdir, '-j', str(jobs), '--output-format', 'terse', '-Z', 'unstable-options', '--harness-timeout', '%ds' % harness_timeout]
         if features: cmd += ['--features', features]
         for n in names: cmd += ['--harness', n]
         t0 = time.time()
@@ -33,9 +33,19 @@ def run_kani(prefix, features=None, jobs=8, timeout=1500, mem_gb=24):
     nchecks = sum(int(x) for x in re.findall(r'\*\* \d+ of (\d+) failed', out))
     covers = re.findall(r'\*\* (\d+) of (\d+) cover properties satisfied', out)
     unwind = 'unwinding assertion' in out
+    # harnesses whose solver run hit the per-harness time cap: undecided, never a verdict
+    timed_out = set(); cur = {}; who = None
+    for line in out.split('\n'):
+        m2 = re.match(r'Thread (\d+): (?:Checking harness (\S+?)\.\.\.)?', line)
+        if m2:
+            who = m2.group(1)
+            if m2.group(2): cur[who] = m2.group(2)
+        elif line.startswith('Checking harness '):
+            who = '0'; cur[who] = line.split()[2].rstrip('.')
+        if 'CBMC timed out' in line and who in cur: timed_out.add(cur[who].split('::')[-1])
     for n in names:
         full = [f for f in failed if f.endswith('::' + n) or f == n]
-        res[n] = 'failed' if full else 'ok'
+        res[n] = 'timeout' if n in timed_out else ('failed' if full else 'ok')
     return dict(results=res, total=int(m.group(3)), ok=int(m.group(1)), failures=int(m.group(2)), checks=nchecks,
                 covers_ok=all(a == b for a, b in covers), covers=len(covers), unwinding_failure=unwind, wall=time.time() - t0, raw_tail=out[-3000:], raw=out)
 
